@@ -99,7 +99,7 @@ func (b verifL2BackendOf) Write(ctx context.Context, key []byte, v int) error {
 }
 
 // verifL_Failover: n concurrent Gets (each on a solver-chosen key).
-func verifL_Failover(n int, generic bool, faults bool, sameKey bool) {
+func verifL_Failover(n int, generic bool, faults bool, sameKey bool, env bool) {
 	verifOption("deadlock")
 	st := &verifL2Store{errFault: errors.New("backend fault"), faultsOn: faults}
 	st.now = verifInt64("now")
@@ -128,7 +128,9 @@ func verifL_Failover(n int, generic bool, faults bool, sameKey bool) {
 	}
 	var keyLocks func() int
 
-	builder := func(t, k int) (int, error) {
+	builder := func(ctx context.Context, t, k int) (int, error) {
+		ctxOK := ctx.Err() == nil
+		verifAssert("a build never observes the caller's cancellation (cancelled only after Get returned)", ctxOK)
 		verifAtomic(func() {
 			inBuild[k]++
 			builds[k]++
@@ -194,13 +196,23 @@ func verifL_Failover(n int, generic bool, faults bool, sameKey bool) {
 				}
 				threadKey[t] = k
 				key := []byte(verifL2KeyNames[k])
-				v, err := f.Get(context.Background(), key, func(ctx context.Context) (interface{}, error) {
-					r, e := builder(t, k)
+				cancelled := false
+				var ctx context.Context = context.Background()
+				if env {
+					ctx = verifCallerCtx{Context: ctx, cancelled: &cancelled, done: nil}
+				}
+				v, err := f.Get(ctx, key, func(ctx context.Context) (interface{}, error) {
+					r, e := builder(ctx, t, k)
 					if e != nil {
 						return nil, e
 					}
 					return r, nil
 				})
+				if env {
+					// the caller is free to reuse its key buffer and to cancel its context once Get returned
+					key[0] = verifL2KeyNames[1-k][0]
+					cancelled = true
+				}
 				checkResult(t, k, v, err)
 			})
 		}
@@ -217,9 +229,18 @@ func verifL_Failover(n int, generic bool, faults bool, sameKey bool) {
 				}
 				threadKey[t] = k
 				key := []byte(verifL2KeyNames[k])
-				v, err := f.Get(context.Background(), key, func(ctx context.Context) (int, error) {
-					return builder(t, k)
+				cancelled := false
+				var ctx context.Context = context.Background()
+				if env {
+					ctx = verifCallerCtx{Context: ctx, cancelled: &cancelled, done: nil}
+				}
+				v, err := f.Get(ctx, key, func(ctx context.Context) (int, error) {
+					return builder(ctx, t, k)
 				})
+				if env {
+					key[0] = verifL2KeyNames[1-k][0]
+					cancelled = true
+				}
 				checkResult(t, k, v, err)
 			})
 		}
@@ -229,14 +250,21 @@ func verifL_Failover(n int, generic bool, faults bool, sameKey bool) {
 		verifAssert("no key lock remains at quiescence", keyLocks() == 0)
 		for k := 0; k < verifL2Keys; k++ {
 			verifAssert("no build in flight at quiescence", inBuild[k] == 0)
+			for t := 0; t < n; t++ {
+				verifAssert("a built value is stored under the key its Get was called with", verifOr(st.val[k] != 100+t, threadKey[t] == k))
+			}
 		}
 	})
 	verifRunThreads()
 }
 
-func verifL_Failover_2()         { verifL_Failover(2, false, false, false) }
-func verifL_FailoverOf_2()       { verifL_Failover(2, true, false, false) }
-func verifL_Failover_2_faults()   { verifL_Failover(2, false, true, true) }
-func verifL_FailoverOf_2_faults() { verifL_Failover(2, true, true, true) }
-func verifL_Failover_3()         { verifL_Failover(3, false, false, true) }
-func verifL_FailoverOf_3()       { verifL_Failover(3, true, false, true) }
+func verifL_Failover_2()          { verifL_Failover(2, false, false, false, false) }
+func verifL_FailoverOf_2()        { verifL_Failover(2, true, false, false, false) }
+func verifL_Failover_2_faults()   { verifL_Failover(2, false, true, true, false) }
+func verifL_FailoverOf_2_faults() { verifL_Failover(2, true, true, true, false) }
+func verifL_Failover_3()          { verifL_Failover(3, false, false, true, false) }
+func verifL_FailoverOf_3()        { verifL_Failover(3, true, false, true, false) }
+func verifL_Failover_2_env()      { verifL_Failover(2, false, false, false, true) }
+func verifL_FailoverOf_2_env()    { verifL_Failover(2, true, false, false, true) }
+func verifL_Failover_1_env()      { verifL_Failover(1, false, false, false, true) }
+func verifL_FailoverOf_1_env()    { verifL_Failover(1, true, false, false, true) }
